@@ -138,6 +138,19 @@ def billing_case(spec, rng, keys):
         got = o.to_numpy(dtype=float)[sel]
         I.reach("billing.periods_judged")
         n += 1
+        near_missing_read = amount == 0.0 or (i + 1 < nper and vals[i + 1] == 0.0) or (i > 0 and vals[i - 1] == 0.0)
+        if near_missing_read:
+            # recorded mechanism: a missing (zero electric) read is dropped before the period lengths are computed, so the periods around
+            # it are merged: lengths, validity and shares of exactly these periods follow the merged calendar, not the billed one
+            lo_, hi_ = b[starts[max(0, i - 1)]], b[starts[min(nper, i + 2)]]
+            g_ = o.to_numpy(dtype=float)[(t >= a0) & (t < a1)]
+            exp_missing = amount == 0.0 or not valid
+            differs = (np.isfinite(g_).any() if exp_missing else (not np.isfinite(g_).all() or abs(float(np.sum(g_)) - amount) > 1e-9 * max(1.0, amount)))
+            if differs:
+                add("billing-periods-around-a-missing-read-are-merged:%s" % ("monthly" if monthly else "bimonthly"),
+                    "period of %d days starting %s next to a missing (zero) read: data.df holds %s, billed calendar says %s" % (
+                        L, didx[starts[i]], "usage %.3f" % float(np.nansum(g_)) if np.isfinite(g_).any() else "nothing", "nothing" if exp_missing else "%.3f" % amount), **tag)
+            continue
         if amount == 0.0:
             valid_amount = None          # zero electric read = missing
         else:
